@@ -51,7 +51,8 @@ def run(tier, rep):
     cases = []
     for c in corpus.single_file_cases() + corpus.package_cases():
         cases.append({"id": "corpus:" + c["name"], "path": c["src"], "family": "corpus"})
-    cases += families.cases_for("C02", tier, root)
+    import tv
+    cases += tv.prepare_cases(families.all_families(tier, seed()), root)
     st = engine.evaluate(cases, static=True, sem=False, name="c02")
     accepted = rejected = unsupported = notcompiled = 0
     fams = {}
